@@ -65,6 +65,7 @@ add("lang", "file", "int vf%d(int, int, ...); int vu%d(void) { return vf%d(1); }
     "struct e%d { int a; struct { int b; int a; }; };", "struct e%d { struct { int y; int x; }; int x; };", "union e%d { int a; float a; };",
     "int q%d(int a, int a);", "int q%d(int a, int (*g)(int), char a) { return 0; }", "double q%d = 0x1.0;", "float q%d = 0x.8f;")
 add("lang", "unit", "#line 1 2\nint x;\n", "# 3 4\nint x;\n")
+add("lang", "file", "struct inc f%d(void); void c%d(void) { f%d(); }", "struct inc (*fp%d)(void); void c%d(void) { fp%d(); }")
 # the address of an object with thread storage duration is not an address constant (C11 6.6p9)
 add("lang", "file", "_Thread_local int tl%d; int *ptl%d = &tl%d;", "static _Thread_local int ts%d[4]; static int *pts%d = &ts%d[1];", "extern _Thread_local int te%d; int *pte%d = &te%d;",
     "_Thread_local struct hs th%d; int *pth%d = &th%d.a;", "_Thread_local int tm%d; struct { int k; int *p; } ag%d = { 1, &tm%d };", "_Thread_local int tq%d[2]; int *aq%d[2] = { 0, tq%d + 1 };")
